@@ -127,9 +127,26 @@ def mr_sel_dim(dim):
                      "subvariables": [_item_subvar_id(dim, p) for p in range(1, dim["n"] + 1)]}}
 
 
-def dimension_dicts(scn):
+def slice_dim_indexes(dims):
+    """(rows index, columns index or None) among the apparent dimensions"""
+    n = len(dims)
+    if n == 3:
+        return 1, 2
+    if n == 2:
+        return 0, 1
+    return 0, None
+
+
+def dimension_dicts(scn, cfg=None):
     """the result.dimensions list for a scenario (numeric-array dims are not listed)"""
-    dims = scn["dims"]
+    dims = copy.deepcopy(scn["dims"])
+    if cfg is not None:
+        import configs
+        ri, ci = slice_dim_indexes(dims)
+        if cfg["rows"]["vins"]:
+            dims[ri]["view_insertions"] = configs.view_insertions(cfg["rows"])
+        if ci is not None and cfg["cols"]["vins"]:
+            dims[ci]["view_insertions"] = configs.view_insertions(cfg["cols"])
     out = []
     for d in dims:
         k = d["kind"]
@@ -180,7 +197,7 @@ def _measure(data, scn, numeric=False, n_missing=0):
     return {"data": [num(x) for x in data], "metadata": meta, "n_missing": n_missing}
 
 
-def build_response(scn, rec):
+def build_response(scn, rec, cfg=None):
     """cube response dict for one emitted state"""
     flat = rec["flat"]
     measures = {}
@@ -200,7 +217,7 @@ def build_response(scn, rec):
                 measures["valid_count_weighted"] = _measure(flaty["vcw"], scn, numeric=True)
     result = {
         "element": "crunch:cube",
-        "dimensions": dimension_dicts(scn),
+        "dimensions": dimension_dicts(scn, cfg),
         "counts": list(flat["counts"]),
         "measures": measures,
         "n": sum(flat["counts"]) if flat["counts"] else 0,
